@@ -19,12 +19,19 @@ func BuildReport(resultPtr *rego.ResultSet, validationConfig c.ValidationConfigu
 		return "", errors.New("empty result from evaluation")
 	}
 	raw := result[0]
-	m := raw.Expressions[0].Value.(types.ObjectMap)
-
-	profileName := m["profile"].(string)
-	violations := m["violation"].([]any)
-	warnings := m["warning"].([]any)
-	infos := m["info"].([]any)
+	if len(raw.Expressions) == 0 {
+		return "", errors.New("empty result from evaluation")
+	}
+	// embedded Rego (rego_extensions) can redefine the rules the report is read from; a result of
+	// another shape is an error of the profile, not a reason to crash
+	m, isMap := raw.Expressions[0].Value.(types.ObjectMap)
+	profileName, hasName := m["profile"].(string)
+	violations, hasViolations := m["violation"].([]any)
+	warnings, hasWarnings := m["warning"].([]any)
+	infos, hasInfos := m["info"].([]any)
+	if !(isMap && hasName && hasViolations && hasWarnings && hasInfos && allObjects(violations) && allObjects(warnings) && allObjects(infos)) {
+		return "", errors.New("unexpected shape of the evaluation result")
+	}
 	results := buildResults(violations, warnings, infos)
 	conforms := len(violations) == 0
 
@@ -32,6 +39,15 @@ func BuildReport(resultPtr *rego.ResultSet, validationConfig c.ValidationConfigu
 	reportNode := ValidationReportNode(profileName, results, conforms, validationConfig, reportConfig)
 	instance := DialectInstance(&reportNode, &context)
 	return Encode(instance), nil
+}
+
+func allObjects(values []any) bool {
+	for _, v := range values {
+		if _, isObject := v.(types.ObjectMap); !isObject {
+			return false
+		}
+	}
+	return true
 }
 
 func buildResults(violations []any, warnings []any, infos []any) []any {
